@@ -29,6 +29,7 @@ use_repo()
 import torch  # noqa: E402
 
 import c06_gen as G  # noqa: E402
+import c06_extra as X  # noqa: E402
 import tr_devices  # noqa: E402
 
 torch.set_num_threads(2)
@@ -181,6 +182,19 @@ def run_impl(case):
             ld2 = tr.log_abs_det_jacobian(xin, y1)
             if not same_bits(ld1.detach(), ld2.detach()):
                 unstable.append(f"log_abs_det_jacobian first {ld1.tolist()} then {ld2.tolist()}")
+            # the three evaluation modes must agree bit for bit
+            for other in ("no_grad", "grad", "requires_grad"):
+                if other == case.get("mode"):
+                    continue
+                xo = x0.clone()
+                if other == "requires_grad":
+                    xo.requires_grad_(True)
+                with grad_ctx({"mode": other}):
+                    yo = tr(xo)
+                    lo_ = tr.log_abs_det_jacobian(xo, yo)
+                if not (same_bits(yo.detach(), y1.detach()) and same_bits(lo_.detach(), ld1.detach())):
+                    unstable.append(f"transform(x) under {other} gives {yo.tolist()} but {y1.tolist()} under {case.get('mode')}")
+                    break
         except Exception as e:
             obs["direct_error"] = f"{type(e).__name__}: {str(e)[:160]}"
     obs["mutated"], obs["unstable"] = mutated, unstable
@@ -931,6 +945,14 @@ def run(ck: Check):
             for clause, what in run_kbl(c):
                 record(f"keep_branch_lengths:{clause}", what, c, (c["n"], 1, 0))
         rng = ck.rng
+        # ---- how the object under test is reached (fourth-wave checklist): construction routes, dtype regimes,
+        #      second instances / deepcopy / moves, batch sizes equal to a dimension + one special row, failure paths
+        X.section_routes(ck, rng, record)
+        X.section_dtypes(ck, rng, record)
+        X.section_instances(ck, rng, record)
+        X.section_batches(ck, rng, record, oracle, run_impl)
+        X.section_failures(ck, rng, record)
+        ck.extra["tensor_constructors_without_dtype_or_device"] = X.scan_constructors(REPO)
         # ---- live models: update histories (assignment and in-place + notification)
         n_hist = 240 if ck.thorough() else 60
         live_corpus = [c for c in corpus_cases() if c.get("type") == "live"]
@@ -1040,6 +1062,52 @@ def replay(path: str) -> int:
         if not bad:
             print("property holds on this input")
         return 1 if bad else 0
+    if typ in ("route", "route-tt"):
+        rc = X.replay_route(obj)
+        print("VIOLATES" if rc else "property holds on this input")
+        return rc
+    if typ in ("dtype", "instances", "failure"):
+        class _Ck:  # minimal stand-in: re-run the section and report what it records
+            def __init__(self):
+                self.extra, self.rng, self.samples = {}, __import__("random").Random(0), []
+
+            def thorough(self):
+                return False
+
+            def case(self, *a, **k):
+                pass
+
+        found = []
+        sec = {"dtype": X.section_dtypes, "instances": X.section_instances, "failure": X.section_failures}[typ]
+        sec(_Ck(), __import__("random").Random(obj.get("seed", 0)), lambda sig, what, rep, size: found.append((sig, what)))
+        print("recorded input:", {k: v for k, v in obj.items() if k not in ("broken_obligations",)})
+        for sig, what in found[:5]:
+            print(f"VIOLATES [{sig}]: {what}")
+        print("VIOLATES" if found else "property holds on the re-drawn inputs of this section")
+        return 1 if found else 0
+    if typ in ("route", "route-tt"):
+        rc = X.replay_route(obj)
+        print("VIOLATES" if rc else "property holds on this input")
+        return rc
+    if typ in ("dtype", "instances", "failure"):
+        class _Ck:  # minimal stand-in: re-run the section and report what it records
+            def __init__(self):
+                self.extra, self.rng, self.samples = {}, __import__("random").Random(0), []
+
+            def thorough(self):
+                return False
+
+            def case(self, *a, **k):
+                pass
+
+        found = []
+        sec = {"dtype": X.section_dtypes, "instances": X.section_instances, "failure": X.section_failures}[typ]
+        sec(_Ck(), __import__("random").Random(obj.get("seed", 0)), lambda sig, what, rep, size: found.append((sig, what)))
+        print("recorded input:", {k: v for k, v in obj.items() if k not in ("broken_obligations",)})
+        for sig, what in found[:5]:
+            print(f"VIOLATES [{sig}]: {what}")
+        print("VIOLATES" if found else "property holds on the re-drawn inputs of this section")
+        return 1 if found else 0
     if typ == "live":
         return replay_live(obj)
     if typ == "kbl":
